@@ -8,7 +8,7 @@ metas = {}
 for mp in sorted(glob.glob(os.path.join(HERE, "seeded", "*", "meta.json"))):
     m = json.load(open(mp))
     sid = m["seed_id"]
-    m["round"] = {"A": 1, "B": 1, "C": 2, "D": 2}.get(sid[-1], 3)
+    m["round"] = {"A": 1, "B": 1, "C": 2, "D": 2, "E": 3, "F": 3}.get(sid[-1], 4)
     m["detection_history"] = H.get(sid, "caught by the check of its property as it stood when the change was produced (quick tier, seed 1)")
     json.dump(m, open(mp, "w"), indent=1)
     metas[sid] = m
@@ -32,10 +32,12 @@ w("## Appendix C — independently seeded changes (`seeded/<id>/`) and which che
 w()
 w("For every property a fresh sub-agent was given only the text of the property and its own scratch git worktree of")
 w("/repo (nothing from /verif) and asked for two independent changes that break the property, still import, still pass")
-w("the repository suite, and need something specific to manifest. This was done three times: round 1 (`Cxx_A`, `Cxx_B`) and, each")
-w("time every change of the previous round was caught, round 2 (`Cxx_C`, `Cxx_D`) and round 3 (`Cxx_E`, `Cxx_F`), whose agents were")
-w("also told what the earlier rounds had changed and asked for another site, another mechanism and preferably another clause of")
-w("the property or another kind of trigger. Each change was then confirmed by")
+w("the repository suite, and need something specific to manifest. This was done four times: round 1 (`Cxx_A`, `Cxx_B`) and, each")
+w("time every change of the previous round was caught, round 2 (`Cxx_C`, `Cxx_D`), round 3 (`Cxx_E`, `Cxx_F`) and round 4 (`Cxx_G`,")
+w("`Cxx_H`, for the ten properties whose checks had missed most in round 3), whose agents were also told what the earlier rounds")
+w("had changed and asked for another site, another mechanism and preferably another clause of the property or another kind of")
+w("trigger (round 4: explicitly not an absolute tolerance, a missing cache invalidation or an array shared with the caller, the")
+w("three families that dominated rounds 2 and 3). Each change was then confirmed by")
 w("`tools/eval_seed.py` in a scratch worktree: the demonstration exits 0 on the clean tree and 1 with the patch, every")
 w("BASELINE `stable_pass` test still passes with the patch, and the registered quick command of the property (plus")
 w("related properties where relevant) is run against the patched tree through `VERIF_REPO` (the same machinery; /repo")
@@ -43,18 +45,20 @@ w("itself is never modified, so concurrent runs are not disturbed). After a chec
 w("again with `tools/recheck_seed.py` (first results kept in `meta.json: checks_first`). `seeded/<id>/` holds `patch.diff`,")
 w("`demo.py`, `notes.md` (the author's description) and `meta.json` (what it breaks, what it needs, what was run, results).")
 w()
-for rnd in (1, 2, 3):
+for rnd in (1, 2, 3, 4):
     ms = [m for m in metas.values() if m["round"] == rnd]
     v = [m for m in ms if valid(m)]
     c = [m for m in v if caught(m)]
     o = [m for m in v if own(m)]
-    first_missed = [m for m in v if m["seed_id"] in H and ("missed" in H[m["seed_id"]] or "not seen" in H[m["seed_id"]])]
+    first_missed = [m for m in v if m["seed_id"] in H and "missed" in H[m["seed_id"]]]
+    other_only = [m for m in v if m["seed_id"] in H and "missed" not in H[m["seed_id"]] and "not seen" in H[m["seed_id"]]]
     w(f"**Round {rnd}**: {len(ms)} changes produced, {len(v)} valid at HEAD, {len(c)} caught in the quick tier at `VERIF_SEED=1` "
       f"({len(o)} of them by the check of their own property, the others by the check of the property they actually break), "
-      f"{len(first_missed)} were missed by the checks as they stood when the change was produced. What was changed in response:")
+      f"{len(first_missed)} were missed by every check run on them as the checks stood when the change was produced (and {len(other_only)} "
+      f"more were seen only by the check of another property). What was changed in response:")
     w()
     for sid in sorted(H):
-        if {"A": 1, "B": 1, "C": 2, "D": 2}.get(sid[-1], 3) == rnd:
+        if {"A": 1, "B": 1, "C": 2, "D": 2, "E": 3, "F": 3}.get(sid[-1], 4) == rnd:
             w(f"* **{sid}** {H[sid]}")
     w()
 w("| seed | what it changes / needs | confirmed (demo 0->1, suite passes) | checks run (quick tier, seed 1) | first report |")
